@@ -9,7 +9,7 @@ import random
 W = 16  # width of LPM keys in bits
 
 PKS = [[], [97], [97, 98], [98], [0], [1, 0], [255]]
-TAGS = [[], [116], [116, 1], [116, 0], [0], [1], [255], [116, 116]]
+TAGS = [[], [116], [116, 1], [116, 0], [0], [1], [255], [116, 116], [116, 1, 9], [1, 7], [116, 2]]
 PFX_POOL = [[], [1], [1, 0], [1, 0, 1, 1, 0, 0, 1], [1, 0, 1, 1, 0, 0, 1, 0], [1, 0, 1, 1, 0, 0, 1, 0, 1],
             [1, 0, 1, 1, 0, 0, 1, 0, 1, 1, 1, 1, 0, 0, 0, 1], [0, 1], [1, 0, 1, 1, 0, 0, 1, 1]]
 FULL_KEYS = [[1, 0, 1, 1, 0, 0, 1, 0, 1, 1, 1, 1, 0, 0, 0, 1], [1, 0, 1, 1, 0, 0, 1, 0, 0, 0, 0, 0, 0, 0, 0, 0],
@@ -217,7 +217,10 @@ class DBGen:
             qs.append(("tags", "get", tg))
             qs.append(("tags", "list", tg))
         qs += [("tags", "prefix", []), ("tags", "prefix", [116]), ("tags", "lowerbound", []),
-               ("tags", "lowerbound", [116]), ("tags", "lowerbound", [116, 0, 0])]
+               ("tags", "lowerbound", [116]), ("tags", "lowerbound", [116, 0, 0]),
+               # bounds whose escaped form differs from the raw bytes (0x00/0x01 inside, followed by larger bytes)
+               ("tags", "lowerbound", [116, 1, 5]), ("tags", "lowerbound", [1, 3]), ("tags", "lowerbound", [116, 0, 200]),
+               ("tags", "prefix", [116, 1]), ("tags", "prefix", [1])]
         for k in FULL_KEYS[:3]:
             qs += [("pfx", "get", k), ("pfx", "list", k), ("upfx", "get", k), ("upfx", "list", k)]
         for p in self.rng.sample(LPM_QUERIES, 4):
